@@ -344,6 +344,19 @@ fn check_bank_output(
 
         if !in_range
         {
+            // The built-in default bank is defined nowhere:
+            // there is no place to point at
+            if bankdef_decl.span.location().is_none()
+            {
+                report.error_span(
+                    format!(
+                        "output out of supported range in bank `{}`",
+                        bankdef_decl.name),
+                    span);
+
+                return Err(());
+            }
+
             report.push_parent(
                 format!(
                     "output out of supported range in bank `{}`",
